@@ -51,42 +51,53 @@ func VfC04_Classify() {
 
 // VfC04_Redirect: MOVED re-sends the same request once to the named node; ASK sends ASKING and
 // then the request, in that order, to the named node; both request a slots refresh without ever
-// blocking (also when one is already pending).
+// blocking (also when one is already pending). The same holds for every further redirection of
+// the same request (stale table after one migration while the next is half done; ASKING and the
+// command separated by other traffic): the client never sees the MOVED/ASK error.
 func VfC04_Redirect() {
 	a, b := "10.0.0.1:7000", "10.0.0.2:7000"
 	u, clients := vfNewUpstream(nil, a, b)
 	words := []string{"MOVED", "moved", "ASK", "Ask"}
-	w := words[nd.Concrete(nd.Choice("word", len(words)))]
-	isAsk := w == "ASK" || w == "Ask"
-	target := []string{a, b}[nd.Concrete(nd.Choice("target", 2))]
 	if nd.Bool("refresh-already-pending") {
 		u.triggerSlotsRefresh()
 	}
 	req := newSimpleRequest(newArray(*newBulkString("set"), *newBulkString("k"), *newBulkBytes(nd.Bytes("v", 2))))
 	body := req.Body()
 	nd.PanicLabel("redirection")
-	u.handleRedirection(req, newError(w+" 3999 "+target))
-	other := a
-	if target == a {
-		other = b
+	hops := nd.Concrete(nd.IntRange("hops", 1, nd.Param("hops", 2)))
+	for h := 0; h < hops; h++ {
+		w := words[nd.Concrete(nd.Choice("word", len(words)))]
+		isAsk := w == "ASK" || w == "Ask"
+		target := []string{a, b}[nd.Concrete(nd.Choice("target", 2))]
+		u.handleRedirection(req, newError(w+" 3999 "+target))
+		other := a
+		if target == a {
+			other = b
+		}
+		nd.Assert(vfTake(clients[other]) == nil, "nothing is sent to any other node")
+		nd.Assert(!vfDone(req.done), "the client is not answered by a redirection itself (it never sees MOVED or ASK), also not by a second one in a row")
+		if vfDone(req.done) {
+			return
+		}
+		first := vfTake(clients[target])
+		nd.Assert(first != nil, "the redirected command is sent to the node named in the redirection")
+		if first == nil {
+			return
+		}
+		if isAsk {
+			nd.Cover("ask")
+			fb := first.Body().Array
+			nd.Assert(len(fb) == 1 && vfBytesEq(vfLowerASCII(fb[0].Text), []byte("asking")), "ASK: ASKING is sent first")
+			second := vfTake(clients[target])
+			nd.Assert(second == req && second.Body() == body, "ASK: then the very same request, on the same connection")
+		} else {
+			nd.Cover("moved")
+			nd.Assert(first == req && first.Body() == body, "MOVED: the very same request is re-sent")
+		}
+		nd.Assert(vfTake(clients[target]) == nil, "the command is sent once (executed once on the node that accepts it)")
+		nd.Assert(len(u.slotsRefreshCh) == 1, "a slots refresh is requested (exactly one pending token)")
+		if h == 1 {
+			nd.Cover("redirected-twice")
+		}
 	}
-	nd.Assert(vfTake(clients[other]) == nil, "nothing is sent to any other node")
-	first := vfTake(clients[target])
-	nd.Assert(first != nil, "the redirected command is sent to the node named in the redirection")
-	if first == nil {
-		return
-	}
-	if isAsk {
-		nd.Cover("ask")
-		fb := first.Body().Array
-		nd.Assert(len(fb) == 1 && vfBytesEq(vfLowerASCII(fb[0].Text), []byte("asking")), "ASK: ASKING is sent first")
-		second := vfTake(clients[target])
-		nd.Assert(second == req && second.Body() == body, "ASK: then the very same request, on the same connection")
-	} else {
-		nd.Cover("moved")
-		nd.Assert(first == req && first.Body() == body, "MOVED: the very same request is re-sent")
-	}
-	nd.Assert(vfTake(clients[target]) == nil, "the command is sent once (executed once on the node that accepts it)")
-	nd.Assert(!vfDone(req.done), "the client is not answered by the redirection itself")
-	nd.Assert(len(u.slotsRefreshCh) == 1, "a slots refresh is requested (exactly one pending token)")
 }
